@@ -5,6 +5,7 @@ CONSTANTS
   Parsers = {1, 2}
   Addrs = {1, 2}
   ViewIds = {1, 2}
+  FilterSeq <- PoolFilterSeq
   Filters = {1, 2}
   MaxEvents = 9
   IdentityMemo = FALSE
